@@ -25,7 +25,7 @@ CHECKS = {
     'C01': {
         'text': 'Proof. For every shipped version, every valid delimiter set and unbounded inputs: parse_segment -> to_er7 is the identity on every canonical line of every table segment, of Z-segments and of MSH (C01_segment, C01_segment_text, C01_segment_Z, C01_segment_MSH), parse_field / parse_component likewise (C01_field, C01_component), and whole messages with group finding off and on (C01_message_flat, C01_message_groups, via C08_same_encoding); built on a generic one-level codec lemma (C01_level) and split/join inverses, and on kernel-checked table obligations for all 12 regenerated versions (Oblig/Wf_v*, seg_tables_ok). The model (Model/Parser.v, Encode.v, Message.v) is run by vm_compute on the same generated lines as hl7apy (tree dump + encoding compared inside Coq); the oracle checks the identity on canonical segments, fields, components and messages (with Z-segments) of every version.',
         'design_ref': 'DESIGN.md section 0.6 and section 7 C01',
-        'note': 'Trusted: Coq kernel + vm_compute; translators gen_tables.py/gen_params.py; harness segcorr.py/c01.py. No axioms. Theorems are for TOLERANT level, ASCII, the leaf function Model/Leaf.v (textual leaves exact; leaf hypotheses are discharged for escape fixed points); the message theorems assume the Message constructor accepts the header, and C01_message_groups is conditional on the grouped parse succeeding (admission is C08) and excludes v2.1 (inline group rows). Recorded finding F21 (escape sequences other than HNFSTRE(L)).',
+        'note': 'Trusted: Coq kernel + vm_compute; translators gen_tables.py/gen_params.py; harness segcorr.py/c01.py. No axioms. Theorems are for TOLERANT level, ASCII, the leaf function Model/Leaf.v (textual leaves exact; leaf hypotheses are discharged for escape fixed points); the message theorems assume the Message constructor accepts the header, and C01_message_groups is conditional on the grouped parse succeeding (acceptance by the group search is C08) and excludes v2.1 (inline group rows). Recorded finding F21 (escape sequences other than HNFSTRE(L)).',
         'technique': 'Coq round-trip proofs over a model of the parser/encoder + exhaustive table obligations by vm_compute + model/implementation differential',
     },
     'C07': {
@@ -107,7 +107,7 @@ CHECKS = {
         'technique': 'Coq proof that the parser model threads the given reference + differential on synthesised profiles',
     },
     'C05': {
-        'text': 'Proof at parse level: for every text, delimiter set, reference and any pair of leaf functions related STRICT=>TOLERANT: parse_segment STRICT = Ok s implies parse_segment TOLERANT = Ok s (the SAME tree), hence identical ER7 (C05_parse_segment_subset, _same_er7, field/component versions under exact side conditions; also for the full datatype layer: C05_parse_segment_subset_full_leaf); every STRICT-only branch of admission only refuses (C05_admission_subset_*). The unrestricted constructor statement is refuted (C05_component_ctor_subset_refuted = F26). The "STRICT-accepted => only missing-required validator errors" clause and messages are decided by the both-levels model differential and the oracle (STRICT API refusal catalogue, per-base-datatype probes; known findings F14, F18).',
+        'text': 'Proof at parse level: for every text, delimiter set, reference and any pair of leaf functions related STRICT=>TOLERANT: parse_segment STRICT = Ok s implies parse_segment TOLERANT = Ok s (the SAME tree), hence identical ER7 (C05_parse_segment_subset, _same_er7, field/component versions under exact side conditions; also for the full datatype layer: C05_parse_segment_subset_full_leaf); every STRICT-only branch of the acceptance checks only refuses (C05_acceptance_subset_*). The unrestricted constructor statement is refuted (C05_component_ctor_subset_refuted = F26). The "STRICT-accepted => only missing-required validator errors" clause and messages are decided by the both-levels model differential and the oracle (STRICT API refusal catalogue, per-base-datatype probes; known findings F14, F18).',
         'design_ref': 'DESIGN.md section 0.6 and section 7 C05',
         'note': 'Trusted: Coq kernel + vm_compute; translators; harness c05.py. No axioms. Histories of API calls under both levels are exercised by the heap checks; the validator-enforcement clause is oracle-only.',
         'technique': 'Coq simulation proof STRICT => TOLERANT over the parser model + both-levels differential + STRICT refusal oracle',
